@@ -17,6 +17,10 @@ package roundrobin
 //@ pred poolOK(r *RoundRobin) = forall i int :: 0 <= i && i < len(r.servers) ==> r.servers[i] != nil && allocated(r.servers[i]) && r.servers[i].weight >= 0 && r.servers[i].url != nil && allocated(r.servers[i].url)
 //@ pred iterOK(r *RoundRobin) = (r.index == -1 && r.currentWeight == 0) || (0 <= r.index && r.index < len(r.servers) && r.currentWeight >= 1 && r.servers[r.index].weight >= r.currentWeight)
 //@ pred isMax(r *RoundRobin, m int) = (forall i int :: 0 <= i && i < len(r.servers) ==> r.servers[i].weight <= m) && (exists j int :: 0 <= j && j < len(r.servers) && r.servers[j].weight == m)
+// argmax names one position of a server of maximal weight (a choice function: such a position exists in a non-empty pool);
+// it is only used as the target of the termination measure of nextServer.
+//@ spec argmax(r *RoundRobin) int reads RoundRobin.servers elems(*server) server.weight
+//@ axiom argmax_is_a_maximal_position: forall r *RoundRobin :: len(r.servers) > 0 ==> 0 <= argmax(r) && argmax(r) < len(r.servers) && (forall i int :: 0 <= i && i < len(r.servers) ==> r.servers[i].weight <= r.servers[argmax(r)].weight)
 //@ pred below(r *RoundRobin, lo int, hi int, c int) = forall k int :: lo < k && k < hi ==> r.servers[k].weight < c
 //@ pred nextLevel(c int, g int, m int) = ite(c - g <= 0, m, c - g)
 //@ pred succA(r *RoundRobin, i0 int, c0 int, i1 int, c1 int) = 0 <= i0 && i0 < i1 && i1 < len(r.servers) && c1 == c0 && r.servers[i1].weight >= c0 && below(r, i0, i1, c0)
@@ -84,6 +88,8 @@ package roundrobin
 //@   ensures selected: result1 == nil ==> 0 <= r.index && r.index < len(r.servers) && result0 == r.servers[r.index] && result0.weight >= r.currentWeight && r.currentWeight >= 1
 //@   ensures successor: result1 == nil ==> (forall m int :: isMax(r, m) ==> succA(r, old(r.index), old(r.currentWeight), r.index, r.currentWeight) || succB(r, old(r.index), old(r.currentWeight), r.index, r.currentWeight, wgcd(r, len(r.servers)), m))
 //@   loop 1 invariant poolOK(r) && len(r.servers) > 0 && gcd == wgcd(r, len(r.servers)) && gcd >= 0 && isMax(r, maxWeight)
+//@   loop 1 invariant level_never_above_the_maximum: r.currentWeight <= maxWeight && -1 <= r.index && r.index < len(r.servers)
+//@   loop 1 decreases ite(r.index < argmax(r), argmax(r) - r.index, argmax(r) - r.index + len(r.servers))
 //@   loop 1 invariant iterOK_old: (old(r.index) == -1 && old(r.currentWeight) == 0) || (0 <= old(r.index) && old(r.index) < len(r.servers) && old(r.currentWeight) >= 1 && r.servers[old(r.index)].weight >= old(r.currentWeight))
 //@   loop 1 invariant phase: (r.currentWeight == old(r.currentWeight) && old(r.index) <= r.index && r.index < len(r.servers) && below(r, old(r.index), r.index + 1, old(r.currentWeight)))
 //@     || ((old(r.index) == -1 || below(r, old(r.index), len(r.servers), old(r.currentWeight))) && r.currentWeight == ite(old(r.currentWeight) - gcd <= 0, maxWeight, old(r.currentWeight) - gcd) && r.currentWeight >= 1 && 0 <= r.index && r.index < len(r.servers) && below(r, -1, r.index + 1, r.currentWeight))
